@@ -290,18 +290,58 @@ def r2_3_layouts(ctx, prog, rule="R2.3"):
                     consts.add(int(s["rv"]["op"]["bits"]))
         ctx.ob(rule, "even-port:encode", consts == {0x80, 0x00}, "EVEN-PORT byte values %s" % sorted(hex(c) for c in consts), b.where())
         d = prog.body("<%s as stun_rs::attributes::DecodeAttributeValue>::decode" % ep)
-        masked = set()
-        okd = False
-        for blk in d.blocks:
-            for st_ in blk["stmts"]:
-                if st_["k"] == "assign" and st_["rv"]["k"] == "binop":
-                    rv = st_["rv"]
-                    cb = rv["b"].get("bits") if rv["b"]["k"] == "const" else None
-                    if rv["op"] == "BitAnd" and cb == "128":
-                        masked.add(st_["place"]["l"])
-                    if rv["op"] == "Eq" and cb == "128" and rv["a"]["k"] in ("copy", "move") and rv["a"]["place"]["l"] in masked:
-                        okd = True
-        ctx.ob(rule, "even-port:decode", okd, "EVEN-PORT decodes (byte0 & 0x80) == 0x80 (reserved bits masked before the test)", d.where())
+        # semantic: the decoded flag, as a function of byte 0 of the value, is exactly bit 7 - whatever the spelling
+        # ((b & 0x80) == 0x80, (b & 0x80) != 0, b >= 0x80, b >> 7 == 1): the comparison the flag is made of is evaluated
+        # for all 256 byte values
+        dpaths, dinfo = C.explore_fn(prog, d.path, "x", [r"\{closure"])
+        okd, why_d, n_okp = True, "", 0
+        rel = {"Eq": lambda a, b: a == b, "Ne": lambda a, b: a != b, "Lt": lambda a, b: a < b, "Le": lambda a, b: a <= b,
+               "Gt": lambda a, b: a > b, "Ge": lambda a, b: a >= b}
+
+        def ev8(t, x, leaves):
+            if isinstance(t, bool):
+                return int(t)
+            if isinstance(t, int):
+                return t
+            if isinstance(t, tuple) and len(t) == 3 and t[0] in ("op:BitAnd", "op:BitOr", "op:BitXor", "op:Shr", "op:Shl"):
+                a, b = ev8(t[1], x, leaves), ev8(t[2], x, leaves)
+                return {"op:BitAnd": a & b, "op:BitOr": a | b, "op:BitXor": a ^ b, "op:Shr": a >> b if 0 <= b < 64 else 0,
+                        "op:Shl": (a << b) & 0xFF if 0 <= b < 64 else 0}[t[0]]
+            leaves.add(repr(t))
+            return x
+        for pa in dpaths:
+            r = C.expr_of(pa, pa.ret)
+            if not (isinstance(r, tuple) and r[0] == "Result::Ok"):
+                continue
+            n_okp += 1
+            v = r[1][1] if isinstance(r[1], tuple) and r[1][0] == "tuple" else None
+            flag = v[1] if isinstance(v, tuple) and v[0] == "EvenPort" and len(v) == 2 else None
+            cmpe = None
+            if isinstance(flag, str) and flag.startswith("sym:cmp:"):
+                cmpe = next((e for e in pa.log if e[0] == "cmp" and "sym:" + str(e[1]) == flag), None)
+            if cmpe is None:
+                # the flag was decided by a branch (`if b & 0x80 != 0 { true } else { false }`): the guard and the constant agree
+                gs = [g for g in pa.guards() if "[0]" in repr(g[1]) + repr(g[2])]
+                if flag in (0, 1, True, False) and len(gs) == 1:
+                    op_, a_, b_, val_ = gs[0]
+                    leaves = set()
+                    tt = [rel[op_](ev8(a_, x, leaves), ev8(b_, x, leaves)) == bool(val_) for x in range(256)]
+                    good = all(tt[x] == ((x >> 7 == 1) == bool(flag)) or not tt[x] for x in range(256)) and any(tt) and len(leaves) == 1
+                    # on this path (guard true for exactly the bytes in tt) the constant flag must equal bit 7
+                    good = len(leaves) == 1 and all(((x >> 7) == 1) == bool(flag) for x in range(256) if tt[x])
+                    if not good:
+                        okd, why_d = False, "flag %s under guard %s" % (flag, show(gs[0])[:80])
+                    continue
+                okd, why_d = False, "flag = %s is not a comparison on byte 0" % (show(flag)[:80],)
+                continue
+            op_, a_, b_ = cmpe[2], C.expr_of(pa, cmpe[3]), C.expr_of(pa, cmpe[4])
+            leaves = set()
+            tt = [rel[op_](ev8(a_, x, leaves), ev8(b_, x, leaves)) for x in range(256)] if op_ in rel else None
+            leaf_ok = len(leaves) == 1 and re.search(r"raw_value.*\[0\]", next(iter(leaves))) is not None
+            if tt is None or not leaf_ok or any(tt[x] != (x >= 0x80) for x in range(256)):
+                okd, why_d = False, "flag = %s %s %s is not bit 7 of byte 0 for every byte value" % (show(a_)[:60], op_, show(b_)[:20])
+        okd = okd and n_okp >= 1
+        ctx.ob(rule, "even-port:decode", okd, why_d or "EVEN-PORT decodes R = bit 7 of byte 0 for all 256 byte values (reserved bits ignored)", d.where())
 
 
 NON_BE = re.compile(r"LittleEndian|NativeEndian|::(to|from)_(le|ne)_bytes$|::swap_bytes$|::to_le$|::from_le$")
